@@ -485,6 +485,10 @@ class InstructionNodeCreator:
             except KeyError:
                 # if not PAC or OFFSET we're not changing position
                 return
+            if not self._collection:
+                # first preamble address code of an empty memory: the rows
+                # addressed for earlier captions are of no concern
+                self._position_tracer.reset()
         offset_after_break = is_offset and self.has_break_before(self._collection)
         if not offset_after_break:
             # Tab offsets after line breaks will be ignored to avoid repositioning
